@@ -1,8 +1,11 @@
-//! Conformance harness (see /verif/CONVENTIONS.md).
-//!   <bin> replay <model> <cases.ndjson> --summary <out.json>
-//!   <bin> record <model> --seed S --out <trace.ndjson> --summary <out.json>
+//! Conformance harness binding celestia-types header validation / verification (C01, C02, C03)
+//! to spec/HeaderVerify.tla (see /verif/CONVENTIONS.md).
+//!   h-header replay <commit|validate|chain> <cases.ndjson> --summary <out.json> [--seed S]
 
 use h_common::{tool_error, Args};
+
+mod commit;
+mod conc;
 
 fn main() {
     let args = Args::from_env();
@@ -10,6 +13,7 @@ fn main() {
     let model = args.pos(1).to_string();
     h_common::quiet_panics();
     match (mode.as_str(), model.as_str()) {
+        ("replay", "commit") => commit::replay(&args),
         _ => tool_error(&format!("unknown mode/model {mode}/{model}")),
     }
 }
